@@ -26,6 +26,7 @@ import M4riProofs.GaussOK
 import M4riProofs.MathlibSpec
 import M4riProofs.Top
 import M4riProofs.EchelonTop
+import M4riProofs.GenTie
 namespace M4ri.Props.C05
 open M4ri M4ri.BMat
 
@@ -94,5 +95,20 @@ theorem tri_inverse_value {U : BMat} (hU : U.WF) (hsq : U.ncols = U.nrows) (hut 
 #check @M4ri.BMat.ET.invM4riTop_spec
 #check @M4ri.BMat.ET.invM4riTop_mathlib
 #check @M4ri.BMat.ET.invM4riTop_any
+
+
+/-! ### tie to the C text: the functions below are GENERATED from /repo/m4ri by vlib/ctrans.py (clang AST) on every
+    check (M4ri/Gen/CFuns.lean); these theorems prove them equal to the hand-written model definitions the theorems
+    above are about, for all arguments of the C domain -/
+#check @M4ri.GenTie.echelonizeSplit6_eq
+#check @M4ri.GenTie.echelonizeSplit5_eq
+#check @M4ri.GenTie.echelonizeSplit4_eq
+#check @M4ri.GenTie.echelonizeSplit3_eq
+#check @M4ri.GenTie.echelonizeSplit2_eq
+#check @M4ri.GenTie.processRows6Split_eq
+#check @M4ri.GenTie.processRows5Split_eq
+#check @M4ri.GenTie.processRows4Split_eq
+#check @M4ri.GenTie.processRows3Split_eq
+#check @M4ri.GenTie.processRows2Split_eq
 
 end M4ri.Props.C05
